@@ -224,8 +224,10 @@ class FakeWS:
         self.closed = Future()
         self.waiter = None
         self.peer = None          # optional: a callable receiving every sent frame
+        self.iterating = False    # the server has started to serve this connection (async for ... in websocket)
 
     def __aiter__(self):
+        self.iterating = True
         return self
 
     async def __anext__(self):
